@@ -39,6 +39,7 @@ namespace verif {
     int code = 0;      //!< exit code or signal number
     std::string text;  //!< everything the child wrote to the report fd (and stderr)
     double seconds = 0;
+    std::string states;  //!< per-thread system calls when the child was killed (TIMEOUT, DEADLOCK)
   };
 
   inline double monotonicSeconds() {
@@ -111,6 +112,34 @@ namespace verif {
     }
     ::closedir(d);
     return all && n > 0;
+  }
+
+  //! one line per thread of `pid`: its current system call (diagnostics of a hang)
+  inline std::string threadStates(const pid_t pid) {
+    std::string r;
+    char path[128];
+    std::snprintf(path, sizeof path, "/proc/%ld/task", static_cast<long>(pid));
+    DIR* d = ::opendir(path);
+    if (d == nullptr) return r;
+    while (const dirent* e = ::readdir(d)) {
+      if (e->d_name[0] == '.') continue;
+      char buf[256];
+      std::snprintf(path, sizeof path, "/proc/%ld/task/%s/syscall", static_cast<long>(pid), e->d_name);
+      FILE* f = std::fopen(path, "r");
+      if (f == nullptr) continue;
+      if (std::fgets(buf, sizeof buf, f) != nullptr) {
+        unsigned long long nr = 0, a0 = 0, a1 = 0;
+        if (std::sscanf(buf, "%llu %llx %llx", &nr, &a0, &a1) == 3) {
+          std::snprintf(buf, sizeof buf, "syscall %llu(0x%llx,0x%llx)", nr, a0, a1);
+        } else if (char* nl = std::strchr(buf, '\n')) {
+          *nl = 0;
+        }
+        r += std::string("[tid ") + e->d_name + ": " + buf + "]";
+      }
+      std::fclose(f);
+    }
+    ::closedir(d);
+    return r;
   }
 
   /*!
@@ -193,6 +222,7 @@ namespace verif {
     }
     int status = 0;
     if (timed_out) {
+      o.states = threadStates(pid);
       ::kill(-pid, SIGKILL);
       ::kill(pid, SIGKILL);
       while (::waitpid(pid, &status, 0) == -1 && errno == EINTR) {
